@@ -572,3 +572,14 @@ def _check_forest(ctx, kind, forest, n, adj):
         nodes = [x[0] for x in seq]
         if sorted(nodes) != list(range(n)):
             ctx.violation("forest", kind, "bad_traversal", "forest traversal does not visit every element exactly once", visited=len(nodes), n=n)
+
+
+def timeout_verdict(desc, rec):
+    """The per-case watchdog counts CPU time of the worker (virtual time, not wall-clock): these cases are small graphs / short histories that take
+    milliseconds, so a case that has burnt the whole CPU budget (hundreds of times the slowest case ever observed) contains a call that does not
+    terminate - which refutes the property for that input.  A *hang* (no CPU burnt) stays inconclusive."""
+    if rec.get("status") != "timeout":
+        return None
+    return {"monitor": "termination", "op": str(desc.get("gen", "case")), "mechanism": "termination:%s:call_still_running_after_the_cpu_budget" % desc.get("gen", "case"),
+            "what": "a call into the library was still running when the case had used its whole CPU-time budget (%.0f s; such cases take milliseconds)" % CASE_TIMEOUT["quick"],
+            "witness": {"case": desc}}
